@@ -473,6 +473,32 @@ class Gen(object):
                 merged.append(v)
         return ast.unparse(ast.JoinedStr(merged))
 
+    def fstring_plain(self):
+        """conversions x caller-scope text: 1-3 replacement fields over simple str/other leaves, every conversion, no format
+        spec (so that every front end, the decompiler included, accepts it), non-ASCII text likely"""
+        values = []
+        for k in range(self.num(1, 3)):
+            if self.coin(3):
+                values.append(ast.Constant(self.pick(['<', '>', ' ', 'a', u'\xe9', '-'])))
+            c = self.num(0, 5)
+            if c <= 2:
+                text = self.pick(STR_NAMES + ['o.s'])
+            elif c == 3:
+                text = repr(self.pick([u'caf\xe9', u'\u0416\u0443\u043a', u'\u2603', 'plain', "it's"]))
+            elif c == 4:
+                text = '%s + %s' % (self.pick(STR_NAMES), repr(self.pick([u'\xe9', 'z', u'\U0001f40d'])))
+            else:
+                text = self.pick(DEC_NAMES + DATE_NAMES + INT_NAMES + ['z', 'flag', 'L', 'D'])
+            node = ast.parse(P(text), mode='eval').body
+            values.append(ast.FormattedValue(node, self.pick([-1, ord('r'), ord('s'), ord('a'), ord('a')]), None))
+        merged = []
+        for v in values:
+            if isinstance(v, ast.Constant) and merged and isinstance(merged[-1], ast.Constant):
+                merged[-1] = ast.Constant(merged[-1].value + v.value)
+            else:
+                merged.append(v)
+        return ast.unparse(ast.JoinedStr(merged))
+
     # -- float ------------------------------------------------------------------------------------
     def leaf_float(self):
         c = self.num(0, 4)
@@ -632,8 +658,12 @@ def external_exprs(draw, typ=None, max_depth=4, allow_lambda=True):
     if typ is None:
         typ = g.any_type()
     depth = draw(st.integers(1, max_depth))
-    if typ == 'str' and draw(st.integers(0, 1)) == 0:
-        return typ, normalise(g.fstring(depth - 1))          # an f-string at the top (half of the str cases)
+    if typ == 'str':
+        c = draw(st.integers(0, 3))
+        if c == 0:
+            return typ, normalise(g.fstring_plain())         # conversions x (non-ASCII) text, a quarter of the str cases
+        if c == 1:
+            return typ, normalise(g.fstring(depth - 1))      # an f-string with everything at the top, another quarter
     return typ, normalise(g.e(typ, depth))
 
 
